@@ -348,9 +348,35 @@ def interleaved(n):
     sx.reach("interleaved")
 
 
+def after_other_transfer(n, m):
+    """what an upload serves depends only on the addressed entry: an entry holding n bytes is uploaded after a
+    download of m bytes to another entry (history on one server), in particular the empty value after a longer one"""
+    rig = ServerRig(sdo_od())
+    cli = RefClient(rig.deliver, "C02")
+    a = sx.fresh_bytes("a", n)
+    b = sx.fresh_bytes("b", m)
+    r = cli.download(0x2000, 0, sx.items(a), "seg-size")
+    sx.prove(r is None, "download refused", "C02/after-other/prepare")
+    r = cli.download(0x2001, 0, sx.items(b), "seg-size" if m > 4 or m == 0 else "exp-size")
+    sx.prove(r is None, "download refused", "C02/after-other/prepare")
+    res = cli.upload(0x2000, 0)
+    ok = res is not None and not isinstance(res, Abort)
+    sx.prove(ok, "upload refused", "C02/after-other/refused")
+    if ok:
+        sx.observe("got", sx.mkbytes(res[0]))
+        sx.prove(len(res[0]) == n and sx.eq_bytes(sx.mkbytes(res[0]), a) is not False,
+                 "upload serves another entry's data or length", "C02/after-other/length")
+        if len(res[0]) == n:
+            sx.prove(sx.eq_bytes(sx.mkbytes(res[0]), a), "uploaded bytes", "C02/after-other/bytes")
+        sx.prove(res[1] is None or (res[1] == n) is not False, "announced size", "C02/after-other/size")
+    sx.reach("after-other")
+
+
 def jobs(tier):
     out = []
     q = tier == "quick"
+    for n, m in ((0, 9), (0, 3), (3, 9), (9, 0), (9, 20), (0, 0)) + (() if q else ((0, 64), (4, 5), (5, 4), (7, 8), (20, 9))):
+        out.append(dict(func="after_other_transfer", params=dict(n=n, m=m)))
     lens = list(range(0, 17)) + [20, 21, 22, 28, 64] if q else list(range(0, 65)) + [127, 1000]
     for n in lens:
         for kind in ("dom", "oct", "recdom"):
@@ -428,7 +454,7 @@ META = dict(
     stubs=["struct", "bytes/bytearray", "dict displays -> SymDict", "logging", "Network.send_message replaced on the instance"],
     required_reach=["upload-callback", "upload-store", "upload-value", "upload-default", "upload-empty",
                     "upload-segmented", "download-exp-size", "download-exp-nosize", "download-seg-size",
-                    "download-seg-nosize", "robust-step", "abort-request", "robust-history", "interleaved", "stray", "upload-interrupts", "two-members"],
+                    "download-seg-nosize", "robust-step", "abort-request", "robust-history", "interleaved", "after-other", "stray", "upload-interrupts", "two-members"],
     limits=dict(quick=dict(max_decisions=20000), thorough=dict(max_decisions=20000, job_timeout_s=3000)),
     validate_every=dict(quick=5, thorough=50),
     max_validate=dict(quick=60, thorough=60),
